@@ -328,7 +328,8 @@ def main(tier):
     extra = {
         "harness_binary": _BINARY,
         "repo": build.REPO,
-        "exhaustive": {"orders": list(EXH_ORDERS), "keys": 5, "max_sequence_length": 6 if tier == "quick" else 7,
+        "exhaustive": False,        # only the small-order sub-space below is enumerated completely
+        "exhaustive_subspace": {"orders": list(EXH_ORDERS), "keys": 5, "max_sequence_length": 6 if tier == "quick" else 7,
                        "universes_per_type_and_order": len(EXH_UNIVERSES),
                        "complete_sequences": sum(r.stats["exh-sequences"] for r in results)},
         "operations_per_type_and_order": dict(sorted(per.items())),
